@@ -132,6 +132,15 @@ pub fn coeffs(delta: i128, n_small: i128, level: Level) -> Vec<i128> {
         while len <= 39 {
             if let Ok(v) = p[..len].parse::<i128>() {
                 push(&mut s, v);
+                // the same generic digits carrying trailing zeros (non-normalised representations of
+                // large values; results of earlier operations look like this)
+                for j in [1u32, 3, 9, 17] {
+                    if let Some(w) = v.checked_mul(pow10(j)) {
+                        if len % 8 == 1 || level != Level::Quick {
+                            push(&mut s, w);
+                        }
+                    }
+                }
             }
             len += if level == Level::Quick { 4 } else { 1 };
         }
@@ -174,6 +183,11 @@ pub fn coeffs_small(level: Level) -> Vec<i128> {
     push(&mut s, 123456789012345678901234567890123456789);
     push(&mut s, 98765432109876543210987654321);
     push(&mut s, 333333333333333333);
+    // large generic values with trailing zeros
+    push(&mut s, 12345678901234567890123456789012345000);
+    push(&mut s, 9876543210987654321098765432100);
+    push(&mut s, 123456789012345678900);
+    push(&mut s, 7777777777777777777777777000000000);
     s.into_iter().collect()
 }
 
